@@ -808,7 +808,8 @@ def g_program(rnd, ext, na, nsteps, ndir, errors=False, extreme=False, big=False
                 c = g_rule(rnd, na, big)
             items.append(('call', c))
             if probes and rnd.random() < 0.25:
-                # probe an atom that has certainly been seen by the converter (get() on an unseen atom would create its image)
+                # get() on an atom the converter has not mapped yet (e.g. one that so far only occurs in a minimize statement)
+                # creates its image - part of the behaviour under test; mode 2 (lpconvert cannot probe) has no mid-run probes
                 seen = sorted(atoms_of(items))
                 if seen:
                     a = rnd.choice(seen)
@@ -898,22 +899,22 @@ def gen(seed, tier):
             # small programs for the semantic comparison
             na = rnd.choice([2, 3, 3, 4, 4, 5])
             steps = 1 if (not ext or rnd.random() < 0.75) else rnd.choice([2, 3])
-            items = g_program(rnd, ext, na, steps, rnd.choice([2, 3, 4, 5, 6]) if steps == 1 else rnd.choice([1, 2, 3]), probes=rnd.random() < 0.5)
+            items = g_program(rnd, ext, na, steps, rnd.choice([2, 3, 4, 5, 6]) if steps == 1 else rnd.choice([1, 2, 3]), probes=(mode != 2 and rnd.random() < 0.5))
             kind = 'semantic-%dstep-ext%d' % (steps, ext)
         elif r < 0.70:
             na = rnd.choice([3, 5, 8])
             steps = 1 if not ext else rnd.choice([1, 2, 3])
-            items = g_program(rnd, ext, na, steps, rnd.choice([3, 6, 10]), extreme=True, big=True)
+            items = g_program(rnd, ext, na, steps, rnd.choice([3, 6, 10]), extreme=True, big=True, probes=mode != 2)
             kind = 'boundary-weights-atoms-ext%d' % ext
         elif r < 0.85:
             na = rnd.choice([3, 4])
             steps = rnd.choice([1, 1, 2])
-            items = g_program(rnd, ext, na, steps, rnd.choice([2, 4, 6]), errors=True, extreme=rnd.random() < 0.3)
+            items = g_program(rnd, ext, na, steps, rnd.choice([2, 4, 6]), errors=True, extreme=rnd.random() < 0.3, probes=mode != 2)
             kind = 'errors-ext%d' % ext
         else:
             na = rnd.choice([3, 4])
             steps = 1 if not ext else rnd.choice([1, 2])
-            items = g_program(rnd, ext, na, steps, rnd.choice([2, 4, 6]), heur=True)
+            items = g_program(rnd, ext, na, steps, rnd.choice([2, 4, 6]), heur=True, probes=mode != 2)
             kind = 'heuristic-edge-ext%d' % ext
         out.append((encode(mode, ext, items), {'kind': kind + ('-lpconvert' if mode == 2 else '')}))
     return out
